@@ -59,13 +59,20 @@ class UMNDirHandler(DirHandler):
             # If the parent says it's OK, then let's see if it's
             # a link file.  If yes, process it and return false.
             if file[0] == ".":
-                if not self.vfs.isdir(self.selectorbase + "/" + file):
-                    self.linkentries.extend(
-                        self.processLinkFile(self.selectorbase + "/" + file)
-                    )
+                if self.vfs.isfile(self.selectorbase + "/" + file):
+                    try:
+                        self.linkentries.extend(
+                            self.processLinkFile(self.selectorbase + "/" + file)
+                        )
+                    except OSError:
+                        # Vanished or unreadable: not worth the whole listing.
+                        pass
                     return False
                 else:
-                    return False  # A "dot dir" -- ignore.
+                    # A "dot dir" -- ignore.  The same goes for anything else
+                    # that is not a regular file (dangling symlink, FIFO,
+                    # socket): opening a FIFO as a link file would block.
+                    return False
             return True  # Not a dot file -- return true
         else:
             return False  # Parent returned 0, do the same.
